@@ -1,0 +1,147 @@
+//go:build verif
+
+// Contracts for the verification machinery in /verif (comment-only; no declarations).
+//
+// C02: bytes written to a Noise session reach the cipher exactly once, in order and unmodified, in chunks of at
+// most MaxPlaintextLength, each sealed chunk goes onto the wire behind its 2-byte big-endian length; bytes of
+// every authenticated frame are handed to the reader exactly once, in order, whatever the read-buffer size.
+//
+// The AEAD (github.com/flynn/noise CipherState) is abstract, see /verif/specs/libp2p.spec: ghost.nonce(cs) is the
+// implicit nonce, ptstream(cs, k) the k-th plaintext byte ever submitted to cs, sealed(cs, n, i) the ciphertext
+// under nonce n, opened(cs, n, i) / openedlen(cs, n) the plaintext of the frame that authenticated under nonce n.
+// instream(r, k) / outstream(w, k) name the bytes of the insecure connection by position (specs/stdlib.spec).
+
+package noise
+
+// ---- representation invariant of the read queue -------------------------------------------------------------
+// qinv: no queue <=> seek pointer 0; the seek pointer stays inside the queued frame.
+// qfill: the queue holds the plaintext of the frame opened last (nonce - 1), all of it.
+//@ pred qinv(s *secureSession) = (s.qbuf == nil ==> s.qseek == 0) && (s.qbuf != nil ==> 0 <= s.qseek && s.qseek <= len(s.qbuf))
+//@ pred qfill(s *secureSession) = s.qbuf != nil ==> s.dec != nil && len(s.qbuf) == openedlen(s.dec, ghost.nonce(s.dec) - 1) &&
+//@     (forall i int :: 0 <= i && i < len(s.qbuf) ==> s.qbuf[i] == opened(s.dec, ghost.nonce(s.dec) - 1, i))
+
+// ---- helpers ----------------------------------------------------------------------------------------------
+
+//@ func (s *secureSession) encrypt
+//@ prop C02
+//@ ensures s.enc == nil ==> result1 != nil
+//@ ensures result1 != nil ==> result0 == nil && ghost.nonce(s.enc) == old(ghost.nonce(s.enc)) && ghost.ptbytes(s.enc) == old(ghost.ptbytes(s.enc))
+//@ ensures result1 == nil ==> result0 != nil && len(result0) == len(out) + len(plaintext) + 16
+//@ ensures result1 == nil ==> (cap(out) >= len(out) + len(plaintext) + 16 ==> result0 == out[:len(out) + len(plaintext) + 16]) &&
+//@         (cap(out) < len(out) + len(plaintext) + 16 ==> fresh(result0))
+//@ ensures result1 == nil ==> ghost.nonce(s.enc) == old(ghost.nonce(s.enc)) + 1 && ghost.ptbytes(s.enc) == old(ghost.ptbytes(s.enc)) + len(plaintext)
+//@ ensures result1 == nil ==> forall i int :: 0 <= i && i < len(plaintext) ==> ptstream(s.enc, old(ghost.ptbytes(s.enc)) + i) == old(plaintext[i])
+//@ ensures result1 == nil ==> forall i int :: 0 <= i && i < len(plaintext) + 16 ==> result0[len(out) + i] == sealed(s.enc, old(ghost.nonce(s.enc)), i)
+//@ modifies elems(out), ghost.nonce(s.enc), ghost.ptbytes(s.enc)
+
+//@ func (s *secureSession) decrypt
+//@ prop C02
+//@ ensures s.dec == nil ==> result1 != nil
+//@ ensures result1 != nil ==> result0 == nil && ghost.nonce(s.dec) == old(ghost.nonce(s.dec))
+//@ ensures result1 == nil ==> s.dec != nil && result0 != nil && len(ciphertext) >= 16 && len(result0) == len(out) + len(ciphertext) - 16 &&
+//@         openedlen(s.dec, old(ghost.nonce(s.dec))) == len(ciphertext) - 16
+//@ ensures result1 == nil ==> (cap(out) >= len(out) + len(ciphertext) - 16 ==> result0 == out[:len(out) + len(ciphertext) - 16]) &&
+//@         (cap(out) < len(out) + len(ciphertext) - 16 ==> fresh(result0))
+//@ ensures result1 == nil ==> ghost.nonce(s.dec) == old(ghost.nonce(s.dec)) + 1
+//@ ensures result1 == nil ==> forall i int :: 0 <= i && i < len(ciphertext) - 16 ==> result0[len(out) + i] == opened(s.dec, old(ghost.nonce(s.dec)), i)
+//@ modifies elems(out), ghost.nonce(s.dec)
+
+// the 2-byte big-endian length prefix: exactly two bytes are consumed from the buffered reader
+//@ func (s *secureSession) readNextInsecureMsgLen
+//@ prop C02
+//@ ensures result1 == nil ==> ghost.consumed(s.insecureReader) == old(ghost.consumed(s.insecureReader)) + 2 &&
+//@         result0 == instream(s.insecureReader, old(ghost.consumed(s.insecureReader))) * 256 + instream(s.insecureReader, old(ghost.consumed(s.insecureReader)) + 1) &&
+//@         0 <= result0 && result0 <= MaxTransportMsgLength
+//@ ensures result1 != nil ==> result0 == 0
+//@ modifies elems(s.rlen[:]), ghost.consumed(s.insecureReader)
+
+// exactly len(buf) bytes, the next ones of the stream, in order
+//@ func (s *secureSession) readNextMsgInsecure
+//@ prop C02
+//@ ensures result == nil ==> ghost.consumed(s.insecureReader) == old(ghost.consumed(s.insecureReader)) + len(buf) &&
+//@         (forall i int :: 0 <= i && i < len(buf) ==> buf[i] == instream(s.insecureReader, old(ghost.consumed(s.insecureReader)) + i))
+//@ ensures forall i int :: i < 0 || i >= len(buf) ==> buf[i] == old(buf[i])
+//@ modifies elems(buf), ghost.consumed(s.insecureReader)
+
+//@ func (s *secureSession) writeMsgInsecure
+//@ prop C02
+//@ ensures 0 <= result0 && result0 <= len(data) && (result1 == nil ==> result0 == len(data))
+//@ ensures ghost.produced(s.insecureConn) == old(ghost.produced(s.insecureConn)) + result0
+//@ ensures forall i int :: 0 <= i && i < result0 ==> outstream(s.insecureConn, old(ghost.produced(s.insecureConn)) + i) == data[i]
+//@ modifies ghost.produced(s.insecureConn)
+
+// ---- Write ------------------------------------------------------------------------------------------------
+// Every chunk handed to the cipher is data[written:end] with 0 < len <= MaxPlaintextLength, where written is the
+// number of bytes submitted so far: the cipher's plaintext stream is extended by exactly data, in order, once.
+// Every frame handed to the wire is the big-endian length of the ciphertext followed by exactly the ciphertext the
+// cipher produced for that chunk; the length fits 16 bits (asserted before the uint16 conversion).
+
+//@ func (s *secureSession) Write
+//@ prop C02
+//@ loop 0 invariant 0 <= written && written <= total && total == len(data) && len(cbuf) >= LengthPrefixLength && cbuf != nil && disjoint(cbuf, data) && fresh(cbuf)
+//@ loop 0 invariant ghost.ptbytes(s.enc) == old(ghost.ptbytes(s.enc)) + written
+//@ loop 0 invariant forall i int :: 0 <= i && i < written ==> ptstream(s.enc, old(ghost.ptbytes(s.enc)) + i) == data[i]
+//@ loop 0 invariant forall i int :: 0 <= i && i < len(data) ==> data[i] == old(data[i])
+//@ loop 0 invariant ghost.produced(s.insecureConn) == old(ghost.produced(s.insecureConn)) + written + 18 * (ghost.nonce(s.enc) - old(ghost.nonce(s.enc)))
+//@ loop 0 invariant ghost.nonce(s.enc) >= old(ghost.nonce(s.enc))
+//@ loop 0 decreases total - written
+//@ callsite encrypt#0 requires arg2 == data[written:end] && end == min(written + MaxPlaintextLength, total)
+//@ callsite encrypt#0 requires 0 < len(arg2) && len(arg2) <= MaxPlaintextLength && len(arg1) == LengthPrefixLength
+//@ callsite encrypt#0 requires written == ghost.ptbytes(s.enc) - old(ghost.ptbytes(s.enc))
+//@ assert before PutUint16#0: len(b) - LengthPrefixLength <= 0xffff && len(b) - LengthPrefixLength == (end - written) + 16
+//@ callsite writeMsgInsecure#0 requires arg1 == ret(encrypt, 0, 0) && len(arg1) == LengthPrefixLength + (end - written) + 16
+//@ callsite writeMsgInsecure#0 requires arg1[0] * 256 + arg1[1] == len(arg1) - LengthPrefixLength
+//@ callsite writeMsgInsecure#0 requires forall i int :: 0 <= i && i < len(arg1) - LengthPrefixLength ==> arg1[LengthPrefixLength + i] == sealed(s.enc, ghost.nonce(s.enc) - 1, i)
+//@ ensures result1 == nil ==> result0 == len(data)
+//@ ensures result1 == nil ==> ghost.ptbytes(s.enc) == old(ghost.ptbytes(s.enc)) + len(data)
+//@ ensures result1 == nil ==> forall i int :: 0 <= i && i < len(data) ==> ptstream(s.enc, old(ghost.ptbytes(s.enc)) + i) == data[i]
+//@ ensures result1 == nil ==> ghost.produced(s.insecureConn) == old(ghost.produced(s.insecureConn)) + len(data) + 18 * (ghost.nonce(s.enc) - old(ghost.nonce(s.enc)))
+//@ ensures 0 <= result0 && result0 <= ghost.ptbytes(s.enc) - old(ghost.ptbytes(s.enc)) && ghost.ptbytes(s.enc) - old(ghost.ptbytes(s.enc)) <= len(data)
+//@ modifies ghost.nonce(s.enc), ghost.ptbytes(s.enc), ghost.produced(s.insecureConn)
+
+// ---- Read -------------------------------------------------------------------------------------------------
+
+//@ func (s *secureSession) Read
+//@ prop C02
+//@ requires qinv(s) && qfill(s) && disjoint(buf, s.qbuf)
+// the frame body handed to the cipher is exactly the N bytes that follow the length prefix on the wire; decryption
+// appends to the empty prefix of the same buffer (in place)
+//@ callsite readNextMsgInsecure#0 requires arg1 == buf[:nextMsgLen] && ghost.consumed(s.insecureReader) == old(ghost.consumed(s.insecureReader)) + LengthPrefixLength
+//@ callsite decrypt#0 requires arg1 == buf[:0] && arg2 == buf[:nextMsgLen] &&
+//@         (forall i int :: 0 <= i && i < nextMsgLen ==> arg2[i] == instream(s.insecureReader, old(ghost.consumed(s.insecureReader)) + LengthPrefixLength + i))
+//@ callsite readNextMsgInsecure#1 requires arg1 == cbuf && len(cbuf) == nextMsgLen && ghost.consumed(s.insecureReader) == old(ghost.consumed(s.insecureReader)) + LengthPrefixLength
+//@ callsite decrypt#1 requires arg1 == cbuf[:0] && arg2 == cbuf && len(cbuf) == nextMsgLen &&
+//@         (forall i int :: 0 <= i && i < nextMsgLen ==> arg2[i] == instream(s.insecureReader, old(ghost.consumed(s.insecureReader)) + LengthPrefixLength + i))
+//@ ensures qinv(s)
+//@ ensures qfill(s)
+// (1) queued bytes: the next min(len(buf), remaining) positions of the queued frame, nothing is read or decrypted
+//@ ensures old(s.qbuf) != nil ==> result1 == nil && result0 == min(len(buf), len(old(s.qbuf)) - old(s.qseek))
+//@ ensures old(s.qbuf) != nil ==> forall i int :: 0 <= i && i < result0 ==> buf[i] == old(s.qbuf)[old(s.qseek) + i]
+//@ ensures old(s.qbuf) != nil ==> forall i int :: 0 <= i && i < result0 ==> buf[i] == opened(s.dec, ghost.nonce(s.dec) - 1, old(s.qseek) + i)
+//@ ensures old(s.qbuf) != nil ==> (s.qbuf == old(s.qbuf) && s.qseek == old(s.qseek) + result0 && s.qseek < len(s.qbuf)) ||
+//@         (s.qbuf == nil && old(s.qseek) + result0 == len(old(s.qbuf)))
+//@ ensures old(s.qbuf) != nil ==> ghost.nonce(s.dec) == old(ghost.nonce(s.dec)) && ghost.consumed(s.insecureReader) == old(ghost.consumed(s.insecureReader))
+// (2) no queue: one frame = 2-byte length N, then N bytes, all of them handed to the cipher, in stream order
+//@ ensures old(s.qbuf) == nil && result1 == nil ==> ghost.nonce(s.dec) == old(ghost.nonce(s.dec)) + 1 &&
+//@         ghost.consumed(s.insecureReader) == old(ghost.consumed(s.insecureReader)) + LengthPrefixLength + openedlen(s.dec, old(ghost.nonce(s.dec))) + 16
+//@ ensures old(s.qbuf) == nil && result1 == nil ==> result0 == min(len(buf), openedlen(s.dec, old(ghost.nonce(s.dec))))
+//@ ensures old(s.qbuf) == nil && result1 == nil ==> forall i int :: 0 <= i && i < result0 ==> buf[i] == opened(s.dec, old(ghost.nonce(s.dec)), i)
+//@ ensures old(s.qbuf) == nil && result1 == nil ==> (s.qbuf == nil && result0 == openedlen(s.dec, old(ghost.nonce(s.dec)))) || (s.qbuf != nil && s.qseek == result0)
+//@ ensures old(s.qbuf) == nil && result1 != nil ==> result0 == 0 && s.qbuf == nil && ghost.nonce(s.dec) == old(ghost.nonce(s.dec))
+// (3) a frame that does not authenticate (or a truncated one) yields an error and no bytes; at most one frame per call
+//@ ensures called(decrypt, 0) && ret(decrypt, 0, 1) != nil ==> result1 != nil && result0 == 0
+//@ ensures called(decrypt, 1) && ret(decrypt, 1, 1) != nil ==> result1 != nil && result0 == 0 && s.qbuf == nil
+//@ ensures called(readNextMsgInsecure, 0) && ret(readNextMsgInsecure, 0, 0) != nil ==> result1 != nil && result0 == 0
+//@ ensures called(readNextMsgInsecure, 1) && ret(readNextMsgInsecure, 1, 0) != nil ==> result1 != nil && result0 == 0
+//@ ensures ncalls(decrypt, 0) + ncalls(decrypt, 1) <= 1
+//@ modifies s.qbuf, s.qseek, elems(buf), elems(s.rlen[:]), ghost.nonce(s.dec), ghost.consumed(s.insecureReader)
+
+// a new session starts with an empty read queue (qinv and qfill hold trivially)
+//@ func newSecureSession
+//@ prop C02
+//@ ensures result0 != nil ==> fresh(result0) && result0.qbuf == nil && result0.qseek == 0 && result0.insecureConn == insecure
+//@ noframe
+// the handshake goroutine never touches the read queue
+//@ closure 0
+//@ ensures s.qbuf == old(s.qbuf) && s.qseek == old(s.qseek)
+//@ noframe
